@@ -6,6 +6,7 @@ import (
 	"fmt"
 	"os"
 	"regexp"
+	"strings"
 	"sync"
 	"testing"
 	"time"
@@ -60,8 +61,13 @@ func genC36(t *rapid.T) c36Case {
 		}
 		return c
 	}
-	c.Service = rapid.OneOf(rapid.String(), rapid.SampledFrom([]string{"", "a", "é/ü", "a\x00b"})).Draw(t, "service")
-	c.Server = rapid.OneOf(rapid.String(), rapid.SampledFrom([]string{"", "srv"})).Draw(t, "server")
+	// lengths around the widths of length prefixes
+	longID := rapid.Custom(func(t *rapid.T) string {
+		n := rapid.SampledFrom([]int{62, 63, 64, 65, 100, 126, 127, 128, 129, 200, 8190, 8191, 8192, 8193, 16383, 16384, 16385}).Draw(t, "idlen")
+		return strings.Repeat("svc/abcdefghij", n/14+1)[:n]
+	})
+	c.Service = rapid.OneOf(rapid.String(), rapid.SampledFrom([]string{"", "a", "é/ü", "a\x00b"}), longID).Draw(t, "service")
+	c.Server = rapid.OneOf(rapid.String(), rapid.SampledFrom([]string{"", "srv"}), rapid.Just(""), longID).Draw(t, "server")
 	c.Raw = rapid.OneOf(rapid.String(), rapid.StringMatching(`[1-9A-HJ-NP-Za-km-z]{0,40}`)).Draw(t, "raw")
 	return c
 }
@@ -366,7 +372,7 @@ func checkC36(c c36Case) (o vstat.Outcome) {
 var specC36 = vstat.Spec[c36Case]{
 	Property: "C36",
 	Rule: "history mode: a real bus + AccessRpcServiceServer.LookupRpcService on a harness stream, 1-8 add/remove operations over 3 provider controllers (RpcServiceControllers matching the service), one at a time with settle; in half of the histories the providers discriminate on the server id (one serves only \"server-a\", one any, one only requests without a server id), the lookup names a server id from {none, server-a, server-b} and another lookup of the same service for some server id may already be running on the bus; " +
-		"codec mode: (service id, server id) incl. unicode, NUL and empty, and arbitrary component-id strings; " +
+		"codec mode: (service id, server id) incl. unicode, NUL, empty and lengths around 64/128/8192/16384, and arbitrary component-id strings; " +
 		"oracle: Exists/Removed strictly alternate starting with Exists, after every step the last of them reflects providers>0 (eventual, waited for up to 10 s), Idle values never repeat; component id round-trips; non-trivial = providers drop to 0 and rise again / non-empty codec input",
 	Assumptions: []string{"the eventual clause is waited for with a 10 s bound; a longer stall would be reported as a violation"},
 	Gen:         genC36,
